@@ -28,7 +28,8 @@ type c05Cell struct {
 	Ext      string `json:"ext"`
 	// Pre: how the pre-existing snapshot is presented to the run: "" as the library wrote it; "crlf": the multi-entry file
 	// converted to CRLF line ends (a checkout with core.autocrlf); "symlink": the standalone file is a symbolic link to
-	// the real file (runfiles trees, shared golden directories). Neither changes what exists or what it holds.
+	// the real file (runfiles trees, shared golden directories); "dup": the multi-entry file holds a second entry with an
+	// id that occurs already (a merge that kept both hunks; readers use the first). None changes what the run may write.
 	Pre string `json:"preexisting_form,omitempty"`
 }
 
@@ -84,6 +85,10 @@ func allC05Cells(seed int) []c05Cell {
 									c.Pre = "crlf"
 								case (api == "ssnap" || api == "sjson") && state != "missing" && (i+seed)%3 == 1:
 									c.Pre = "symlink"
+								case (i+seed)%4 == 2 && !srt && !obs:
+									// a file in which an id occurs twice (a git merge that kept both hunks): readers use the first one;
+									// only cells in which nothing may rewrite the multi-entry file's other entries
+									c.Pre = "dup"
 								}
 								cells = append(cells, c)
 							}
@@ -210,6 +215,12 @@ func checkC05(c c05Cell) error {
 			return fmt.Errorf("harness: cannot convert %q to CRLF: %v", multiRel, err)
 		}
 		os.WriteFile(filepath.Join(root, multiRel), []byte(strings.ReplaceAll(string(b), "\n", "\r\n")), 0o644)
+	case "dup":
+		b, err := os.ReadFile(filepath.Join(root, multiRel))
+		if err != nil {
+			return fmt.Errorf("harness: %v", err)
+		}
+		os.WriteFile(filepath.Join(root, multiRel), append(b, []byte("\n[TestAlpha/zz - 1]\nthe second copy of an id (merge leftover)\n---\n")...), 0o644)
 	case "symlink":
 		realRel = filepath.Join("real", filepath.Base(cutRel))
 		os.MkdirAll(filepath.Join(root, "real"), 0o755)
